@@ -11,16 +11,37 @@ LEAN_MODULES = ['HotXL.Props.C19']
 FUNCTIONS = ['hotxlfp.helper.cell:row_label_to_index', 'hotxlfp.helper.cell:row_index_to_label',
              'hotxlfp.helper.cell:column_label_to_index', 'hotxlfp.helper.cell:column_index_to_label',
              'hotxlfp.helper.cell:extract_label', 'hotxlfp.helper.cell:to_label']
-RULE = ('column labels: all of length<=2 (quick) / all 475254 of length<=4 in both cases (thorough) plus seeded '
-        'longer ones; column indices 0..N and seeded large; rows 1..1048576 sampled and beyond; labels in all four '
-        '$ patterns and both cases; seeded non-label strings (wrong order, empty parts, junk, unicode, trailing '
-        'newline); labels decomposed after the evaluator (hotxlfp.Parser) has used them as corners of ranges written in '
-        'either order and as single references. A case is non-trivial when the implementation returns something other than -1/empty/[] .')
+RULE = ('col: all column labels of length<=2 in upper case + the 26 lower-case letters (quick) / all 475254 of length<=4 in '
+        'both cases (thorough), 600*scale seeded mixed-case ones of length 3,4,5,7,12 and 13 fixed (XFD, XFE, ZZZZ, non-labels '
+        'A1, a-b, empty, " A", A_, AB$); idx: column indices -2..3000*scale-1 (thorough: -2..499999), 300*scale seeded ones below '
+        '10^3..10^14 and 12 boundary values (judged for n >= 0); row: 1..1999, 1048575..1048577, 10^9, 10^20, 500*scale seeded '
+        '(thorough adds every 7th row up to 1048576); rowlabel: 8 non-row strings (model comparison only); label: 1500*scale '
+        '(thorough x10) seeded labels of 1..4 letters in both cases x rows below 100 / 1048577 / 10^9 x all four $ patterns, '
+        '11 fixed (incl. A0, A01, A00, $a$007), 800*scale strings of length 0..6 over a 20-character junk alphabet and 35 fixed '
+        'non-labels (wrong order, empty parts, doubled/trailing $, white space, trailing newline / CR, Arabic digit, Cyrillic A, '
+        'characters that str.upper()/lower() turn into ASCII letters: sharp s, dotless i, long s, ligatures, Kelvin sign); '
+        'label with `pre`: 400*scale (thorough x5) + 2 fixed labels decomposed after one shared hotxlfp.Parser with grid listeners '
+        'has evaluated 1..3 formulas (SUM(x:y), x:y, SUM(x:y)+a) that use the label as corner of ranges written in either order '
+        'and case and as single reference; formula (oracle only, same parser, the cell/range events are observed): 300*scale '
+        '(thorough x5) label look-alikes whose letters part holds one of 7 non-ASCII characters that case mapping turns into '
+        'ASCII letters (30 % also as a range) - no event may be raised; 150*scale ASCII one-label formulas and 250*scale sums of '
+        '2..3 references to one address in different $ patterns and cases - exactly one cell event per reference with the '
+        'upper-cased label, its recomposition and its $ flags. All kinds but formula are compared with the model (label: also on '
+        'non-ASCII text). Non-trivial = the implementation returns something other than -1 / empty / []; formula cases always '
+        'count. When a proof or the correspondence broke: indices within 30 of a disagreeing one, both cases of a disagreeing '
+        'column label, and the whole generator at scale 20.')
 TRUSTED = ['CPython str.upper/str.find/int()/str() on ASCII (modelled by hand in Model/Cell.lean)',
            'the regular expression engine `re` for LABEL_EXTRACT_REGEXP (matcher written by hand for the generated pattern; '
-           'Props/C19.regexp_is_the_modelled_one pins the pattern text)']
+           'Props/C19.regexp_is_the_modelled_one pins the pattern text)',
+           'pre / formula cases: lexer, grammar and evaluator of hotxlfp.Parser are the route to the label functions and are not '
+           'judged themselves (the results of the formulas are ignored; one parser is shared by the whole run)']
 ASSUMPTIONS = ['column_label_to_index is compared on ASCII input only (str.upper of non-ASCII text is library behaviour)',
-               'labels with a zero row or leading zeros (A0, A01) are neither required to parse nor required to be rejected']
+               'labels with a zero row or leading zeros (A0, A01) are neither required to parse nor required to be rejected',
+               'a label is $?letters$?digits over ASCII letters and digits, row >= 1: it must decompose to (row-1, bijective base-26 '
+               'column, the two $ flags) and recompose to its upper-case spelling; every other string (but the zero-row / leading-zero '
+               'ones) must give []; negative column indices and the rowlabel strings are not judged by the oracle',
+               'a formula that is a label (or a sum of labels) raises one callCellValue event per reference; a string whose letters '
+               'part is not ASCII letters is no cell reference even if str.upper() would make it one']
 EXHAUSTIVE = {'quick': False, 'thorough': True}
 
 UP = string.ascii_uppercase
